@@ -52,3 +52,41 @@ def kick_fields(prog):
         if a.kind == "store" and a.idx is None and a.base.startswith("_"):
             out[a.base] = S.norm(a.value) if a.value is not None else None
     return fn, s, out
+
+
+def source_guard(ka, b):
+    """Is the grid read of branch b executed only under `c < N` (unsigned), where the source cell is
+    n*N*N + stride*c + (perpendicular loop variable)*otherstride ?  -> (ok, explanation)"""
+    N = S.N
+    sz = {sp.Symbol("_meshsize_kd", real=True): N, sp.Symbol("_meshsize_pd", real=True): N}
+    din = b.din[0]
+    Sx = sp.expand(S.norm(din.idx[0]).subs(sz))
+    nl = [L for L in din.loops if L.name == "n"]
+    if len(nl) != 1:
+        return False, "bunch loop not found"
+    rest = sp.expand(Sx - nl[0].sym * N * N)
+    if rest.has(nl[0].sym):
+        return False, "source index is not n*N*N + in-bunch part: %s" % Sx
+    sc = ka.scan
+    for g, pol in din.guards:
+        if not isinstance(g, dict) or g.get("k") in ("SwitchCase", "Catch") or not pol:
+            continue
+        gn = A.strip(g)
+        if gn.get("k") != "BinaryOperator" or gn["op"] != "<":
+            continue
+        if "unsigned" not in (gn["c"][0].get("ctype") or "") or "unsigned" not in (gn["c"][1].get("ctype") or ""):
+            continue
+        lhs, rhs = sc._try(gn["c"][0]), sc._try(gn["c"][1])
+        if lhs is None or rhs is None:
+            continue
+        lhs, rhs = sp.expand(S.norm(lhs).subs(sz)), sp.expand(S.norm(rhs).subs(sz))
+        if sp.expand(rhs - N) != 0:
+            continue
+        for stride, other in ((N, 1), (1, N)):
+            rem = sp.expand(rest - stride * lhs)
+            cand = [L for L in din.loops if L.sym is not None and rem == other * L.sym]
+            if len(cand) == 1 and cand[0].lo == 0 and sp.expand(S.norm(cand[0].hi).subs(sz) - N) == 0:
+                return True, "source = n*N*N + %s*(%s) + %s*%s, read only if (%s) < N (unsigned), %s in [0,N)" % (
+                    stride, lhs, other, cand[0].name, lhs, cand[0].name)
+    return False, "no guard of the form `coordinate < N` (unsigned) on the wrapped source coordinate itself; in-bunch part %s, guards: %s" % (
+        rest, I.guard_text(din.guards))
